@@ -122,6 +122,10 @@ func (r *dataReader) Read(b []byte) (n int, err error) {
 				r.state = stateEOF
 				continue
 			}
+			// Not part of .\r\n. Emit the \r that was held back and
+			// process c again as ordinary line data.
+			r.r.UnreadByte()
+			c = '\r'
 			r.state = stateData
 		case stateCR:
 			if c == '\n' {
